@@ -148,6 +148,11 @@ func TestC16(t *testing.T) {
 					if varyShape && rng.IntN(3) == 0 {
 						op.Labels["b"] = fmt.Sprintf("w%d", rng.IntN(2))
 						classes["varying-label-shape"] = true
+					} else if varyShape && rng.IntN(3) == 0 {
+						// the same value under another label name: {a:"v1"} and {b:"v1"} are two series
+						delete(op.Labels, "a")
+						op.Labels["b"] = lv
+						classes["varying-label-shape"] = true
 					}
 					if rng.IntN(9) == 0 {
 						ops = append(ops, c16op{Group: op.Group, Action: "expire"})
